@@ -41,7 +41,7 @@ PROPS = {
             'verus': [],
             'kani': [{'files': KC + ['c09_field.rs', 'c07_codec.rs', 'c07_prio3.rs'],
                       'harnesses': ['field32_bytes', 'field64_bytes', 'field128_bytes', 'ints_roundtrip', 'items_encode_roundtrip', 'u8_u16_u32_items_total',
-                                    'p3c_input_share_helper', 'p3c_public_share', 'p3c_verifier_share_msg', 'p3c_output_agg_share', 'prio3_bad_agg_id_decode']},
+                                    'p3c_input_share_helper', 'p3c_public_share', 'p3c_verifier_share_msg', 'p3c_output_agg_share', 'prio3_bad_agg_id_decode', 'p3c_verify_state_derived_fields']},
                      {'files': KC + ['f255_util.rs', 'idpf_util.rs', 'c07_codec.rs', 'c07_poplar1.rs'],
                       'harnesses': ['pop_agg_param_encoded_len', 'pop_sketch_state_tags', 'pop_agg_param_decode_levels']}],
         },
@@ -69,23 +69,26 @@ PROPS = {
     },
     'C16': {
         'level': 'other',
-        'explanation': 'Decided (Verus, unbounded): Histogram::new accepts exactly its documented domain and establishes well-formedness; Prio2::new never overflows and accepts exactly the lengths that fit the 2^20 subgroup; check_num_aggregators; all *_len accessors of Histogram/SumVec/MultihotCountVec/Sum compute without overflow on usable instances; Sum::new, SumVec::new, MultihotCountVec::new and L1BoundSum::new (F::Integer = u128 and u64, abstract modulus) return Ok exactly on their documented domain, never panic or overflow on ANY argument, and set bits / last_weight / gadget_calls to floor(log2 max)+1 / max-(2^(bits-1)-1) / ceil(encoded length / chunk_length). Decided (Kani): Prio3::new, role_try_from (every usize id), random_size, wrong randomness length, wrong verifier-share length/count, out-of-range field bytes. Known finding: Histogram/SumVec/MultihotCountVec::new accept chunk lengths for which the length accessors overflow.',
+        'explanation': 'Decided (Verus, unbounded): Histogram::new accepts exactly its documented domain and establishes well-formedness; Prio2::new never overflows and accepts exactly the lengths that fit the 2^20 subgroup; check_num_aggregators; all *_len accessors of Histogram/SumVec/MultihotCountVec/Sum compute without overflow on usable instances; Sum::new, SumVec::new, MultihotCountVec::new and L1BoundSum::new (F::Integer = u128 and u64, abstract modulus) return Ok exactly on their documented domain, never panic or overflow on ANY argument, and set bits / last_weight / gadget_calls to floor(log2 max)+1 / max-(2^(bits-1)-1) / ceil(encoded length / chunk_length). Decided (Kani): Prio3::new, role_try_from (every usize id), random_size, wrong randomness length, wrong verifier-share length/count, out-of-range field bytes; Prio3::verify_init on a leader share with a proof share of the wrong length or without the joint-randomness blind its type needs => Err (this panicked on the pinned tree: found and repaired); Prio2::verify_init_with_query_rand on a leader share of the wrong length (shorter than input_len included) => Err; Prio2 role_try_from. Known finding: Histogram/SumVec/MultihotCountVec::new accept chunk lengths for which the length accessors overflow.',
         'trusted': ['usize::next_power_of_two, u32::try_from std semantics (assume_specification / external_body)'],
         'quick': {
             'verus': [('flp_lens', 'unit'), ('flp_lens', 'unit_usable'), ('vdaf_guards', 'unit'), ('flp_new', 'unit', 'u128'), ('flp_new', 'unit', 'u64')],
             'kani': [{'files': KC + ['sym_prio3.rs', 'c16_prio3.rs'],
-                      'harnesses': ['p3_role_try_from', 'p3_random_size', 'p3_new_guards', 'p3_shard_wrong_random_len', 'p3_vs2m_share_count_small', 'p3_vs2m_share_len']}],
+                      'harnesses': ['p3_role_try_from', 'p3_random_size', 'p3_new_guards', 'p3_shard_wrong_random_len', 'p3_vs2m_share_count_small', 'p3_vs2m_share_len']},
+                     {'files': KC + ['sym_prio3.rs', 'c01_prio3.rs'], 'harnesses': ['p3_verify_init_leader_share_guards'], 'timeout': 900},
+                     {'files': KC + ['c16_prio2.rs'], 'harnesses': ['prio2_verify_init_short_leader_share', 'prio2_role_try_from'], 'timeout': 900}],
         },
         'thorough': {
-            'kani': [{'files': KC + ['sym_prio3.rs', 'c16_prio3.rs'], 'harnesses': ['p3_vs2m_share_count_256', 'p3_vs2m_share_count_258'], 'timeout': 2400}],
+            'kani': [{'files': KC + ['sym_prio3.rs', 'c16_prio3.rs'], 'harnesses': ['p3_vs2m_share_count_256', 'p3_vs2m_share_count_258'], 'timeout': 2400},
+                     {'files': KC + ['c16_prio2.rs'], 'harnesses': ['prio2_verify_init_wrong_len_il2'], 'timeout': 1500}],
         },
     },
     'C05': {
         'level': 'other',
-        'explanation': 'Decided (Verus, unbounded): for Histogram, SumVec, MultihotCountVec and Sum the declared proof_len/verifier_len/prove_rand_len/joint_rand_len equal the expressions Flp::prove/query build from the gadget parameters (arity + gadget_poly_len(degree, wire_poly_len(calls)) with the real wire_poly_len/gadget_poly_len extracted from flp.rs), without overflow on usable instances. Decided (Kani, the real provided methods Flp::query / Flp::decide instantiated with a harness-defined one-gadget circuit, any query randomness r, field multiplication seen through its contract): query refuses (Err(Query)) whenever r^wire_poly_len(calls) == 1 and never reaches the evaluation of a gadget polynomial at such a point, for gadgets called 1, 2, 3, 4 (quick) and 8 (thorough) times; wrong input/proof/randomness lengths are refused before the guard; decide() refuses a wrong verifier length and returns true exactly when verifier[0] == 0 and every gadget check matches. Not decided: completeness, soundness, share-linearity of query (polynomial identities over NTT code); that r^n == 1 characterises the interpolation nodes is field theory (assumed).',
+        'explanation': 'Decided (Verus, unbounded): for Histogram, SumVec, MultihotCountVec and Sum the declared proof_len/verifier_len/prove_rand_len/joint_rand_len equal the expressions Flp::prove/query build from the gadget parameters (arity + gadget_poly_len(degree, wire_poly_len(calls)) with the real wire_poly_len/gadget_poly_len extracted from flp.rs), without overflow on usable instances; the constructors of SumVec/MultihotCountVec/L1BoundSum/Sum derive bits, last_weight and gadget_calls == ceil(encoded input length / chunk_length) (so joint_rand_len and the gadget call count cover every chunk of the input). Decided (Kani, the real provided methods Flp::query / Flp::decide instantiated with a harness-defined one-gadget circuit, any query randomness r, field multiplication seen through its contract): query refuses (Err(Query)) whenever r^wire_poly_len(calls) == 1 and never reaches the evaluation of a gadget polynomial at such a point, for gadgets called 1, 2, 3, 4 (quick) and 8 (thorough) times; wrong input/proof/randomness lengths are refused before the guard; decide() refuses a wrong verifier length and returns true exactly when verifier[0] == 0 and every gadget check matches. Not decided: completeness, soundness, share-linearity of query (polynomial identities over NTT code); that r^n == 1 characterises the interpolation nodes is field theory (assumed).',
         'trusted': ['gadget parameters (arity 2*chunk_length, degree 2, calls gadget_calls) are read off gadget() by hand',
                     'r^n == 1 <=> r is one of the n interpolation nodes (cyclic group of a prime field)'],
-        'quick': {'verus': [('flp_lens', 'unit')],
+        'quick': {'verus': [('flp_lens', 'unit'), ('flp_new', 'unit', 'u128')],
                   'kani': [{'files': KC + ['c05_flp.rs'], 'harnesses': ['flp_query_root_guard_c1', 'flp_query_root_guard_c2', 'flp_query_root_guard_c3', 'flp_query_root_guard_c4', 'flp_query_len_guards', 'flp_decide_guards'], 'timeout': 600}]},
         'thorough': {'kani': [{'files': KC + ['c05_flp.rs'], 'harnesses': ['flp_query_root_guard_c8'], 'timeout': 900}]},
     },
@@ -145,9 +148,9 @@ PROPS = {
     },
     'C10': {
         'level': 'other',
-        'explanation': 'Decided (Verus, abstract field = any field meeting the C09 operator contracts, extracted text, all sizes): poly_eval_monomial returns the value of the polynomial at the point (Horner recursion, proved equal to sum a_i x^i) for every length incl. the empty polynomial; ntt_inv_finish is exactly the index reversal i -> (size-i) mod size with scaling by size_inv and leaves elements beyond `size` untouched; the interleave loop of double_evaluations (fragment) writes evaluations[k] to 2k and the shifted-transform half to 2k+1 without destroying a value still to be read; fp::log2 is the ceiling logarithm; bitrev yields a d-bit index. NOT decided: that the butterfly network of ntt_internal computes the DFT (forward transform == evaluation at powers of the root), barycentric evaluation, extension to a power of two, poly_mul_lagrange, error reporting of ntt_internal. A change inside a butterfly or in poly_eval_lagrange_batched is NOT detected by this check.',
+        'explanation': 'Decided (Verus, abstract field = any field meeting the C09 operator contracts, extracted text, all sizes): poly_eval_monomial returns the value of the polynomial at the point (Horner recursion, proved equal to sum a_i x^i) for every length incl. the empty polynomial; ntt_inv_finish is exactly the index reversal i -> (size-i) mod size with scaling by size_inv and leaves elements beyond `size` untouched; the interleave loop of double_evaluations (fragment) writes evaluations[k] to 2k and the shifted-transform half to 2k+1 without destroying a value still to be read; fp::log2 is the ceiling logarithm; bitrev yields a d-bit index; ntt_internal (whole function) reports OutputTooSmall / SizeTooLarge / SizeInvalid exactly as specified and returns Ok exactly for power-of-two sizes within the root table and the output buffer, every index of the bit-reversal copy and of every butterfly is in range for EVERY size, nothing beyond `size` is written. NOT decided: that the butterfly network of ntt_internal computes the DFT (forward transform == evaluation at powers of the root), barycentric evaluation, extension to a power of two, poly_mul_lagrange. A change inside a butterfly or in poly_eval_lagrange_batched is NOT detected by this check.',
         'trusted': ['abstract field Fe: operator contracts of the field layer (C09)', 'u128::leading_zeros, usize::reverse_bits std semantics (assume_specification)', '64-bit usize', 'E3c: slice parameters are verified as Vec parameters (same index/len operations)'],
-        'quick': {'verus': [('poly_kernels', 'unit')], 'kani': []},
+        'quick': {'verus': [('poly_kernels', 'unit'), ('poly_kernels', 'unit_ntt')], 'kani': []},
         'thorough': {},
     },
 }
